@@ -73,10 +73,15 @@ func ordCmd(args []string) error {
 		ordUTXO := &bt.UTXO{TxID: bytes.Repeat([]byte{0x0a}, 32), Vout: 0, LockingScript: ordScript, Satoshis: 1}
 		prev := map[string]*bt.Output{hex.EncodeToString(ordUTXO.TxID) + ":0": {Satoshis: 1, LockingScript: ordScript}}
 		var utxos []*bt.UTXO
+		sameFundingTx := (price+len(us)+sx)%2 == 1 // a function of the scenario, so that replays take the same path
 		for i, v := range us {
 			u := &bt.UTXO{TxID: bytes.Repeat([]byte{byte(0x10 + i)}, 32), Vout: 0, LockingScript: buyer.script, Satoshis: uint64(v), Unlocker: buyer.unlocker()}
+			if sameFundingTx {
+				// the buyer's coins are outputs 1, 2, ... of one funding transaction (the usual way dummies are made)
+				u.TxID, u.Vout = bytes.Repeat([]byte{0x10}, 32), uint32(1+i)
+			}
 			utxos = append(utxos, u)
-			prev[hex.EncodeToString(u.TxID)+":0"] = &bt.Output{Satoshis: uint64(v), LockingScript: buyer.script}
+			prev[hex.EncodeToString(u.TxID)+":"+string(rune('0'+u.Vout))] = &bt.Output{Satoshis: uint64(v), LockingScript: buyer.script}
 		}
 		e := Ev{"ev": "ord", "src": src, "flow": flow, "price": price, "us": us, "q": q.ev(), "ok": false, "valid": []bool{}, "sellerSlen": len(*payS),
 			"tx": Ev{"ins": []Ev{}, "outs": []Ev{}}}
@@ -124,7 +129,7 @@ func ordCmd(args []string) error {
 						continue
 					}
 					for _, u := range utxos {
-						if bytes.Equal(u.TxID, in.PreviousTxID()) {
+						if bytes.Equal(u.TxID, in.PreviousTxID()) && u.Vout == in.PreviousTxOutIndex {
 							pu = append(pu, u)
 						}
 					}
@@ -149,7 +154,7 @@ func ordCmd(args []string) error {
 		ins := []Ev{}
 		for _, in := range tx.Inputs {
 			isOrd := bytes.Equal(in.PreviousTxID(), ordUTXO.TxID)
-			po := prev[hex.EncodeToString(in.PreviousTxID())+":0"]
+			po := prev[hex.EncodeToString(in.PreviousTxID())+":"+string(rune('0'+in.PreviousTxOutIndex))]
 			owner, sats := "buyer", 0
 			if isOrd {
 				owner = "seller"
